@@ -20,3 +20,6 @@ def run(ctx, R):
     R.floor('window instances', n, 5)
     # HeaderTooLong (and every other error the property calls terminal) is classified terminal
     classify.classification(ctx, R, 'C18.C', only='terminal')
+    # 'complete' is the negation of 'incomplete' for every result (default is_complete, never overridden)
+    classify.flag_algebra(ctx, R, 'C18.N')
+    v1model.missing_rule(ctx, R, 'C18.M')
